@@ -436,21 +436,7 @@ def R2c_reorient(ctx):
     R5_reorient(ctx, "C13.R2c")
 
 
-def R3_yens(ctx):
-    """C13.R3 Yen's structure"""
-    F = ctx.F
-    ctx.rule("C13.R3", "Yen's: first accepted = underlying first route; spur instance = caller's fields with EdgeCutFrontierModel(si.frontier_model, cut_edges); cut edge = accepted_path[spur_idx+1]; loop-free candidates; dissimilar to every accepted; one acceptance per outer turn; spur failures not propagated; progress; spur range guarded", floor=10)
-    b = F.need(K + "yens_algorithm::run")
-    tm = Terms(b)
-    runs = [c for c in b.calls() if c.callee == astar.A + "search_algorithm::SearchAlgorithm::run_vertex_oriented"]
-    first = [c for c in runs if innermost_loop(b, c.bb) is None]
-    spur = [c for c in runs if innermost_loop(b, c.bb) is not None]
-    ctx.check(len(first) == 1 and len(spur) == 1, "searches", "expected one initial and one spur search (found %d/%d)" % (len(first), len(spur)), b.where())
-    if len(first) != 1 or len(spur) != 1:
-        return
-    first, spur = first[0], spur[0]
-    a = [nosite(deep_strip(tm.operand(x, first.bb))) for x in first.args]
-    ctx.check(a[1] == ("field", ("arg", 1), "source") and a[2] == ("agg", "std::option::Option", "Some", (("0", ("field", ("arg", 1), "target")),)) and a[5] == ("arg", 4), "first-search", "the initial search is not source -> target on the caller's instance", first.where())
+def _spur_instance(ctx, F, b, tm, spur):
     # spur instance
     aggs = [(bb, pos, s) for bb, blk in enumerate(b.blocks) for pos, s in enumerate(blk["stmts"]) if s["k"] == "assign" and s["rv"]["k"] == "agg" and s["rv"].get("adt", "").endswith("search_instance::SearchInstance")]
     oki = len(aggs) == 1
@@ -467,6 +453,37 @@ def R3_yens(ctx):
         ctx.check(sa[2] == ("agg", "std::option::Option", "Some", (("0", ("field", ("arg", 1), "target")),)), "spur-search:target", "the spur search does not go to the query's target", spur.where())
     else:
         ctx.bad("spur-instance", "expected one SearchInstance construction, found %d" % len(aggs), b.where())
+
+
+def spur_instance_rule(ctx, rid):
+    """the alternative-route searches of Yen's algorithm run on the instance whose frontier excludes the cut edges (shared with C04)"""
+    F = ctx.F
+    ctx.rule(rid, "Yen's spur search runs on a SearchInstance that reuses the caller's models with EdgeCutFrontierModel::new(si.frontier_model, cut_edges) as frontier, towards the query's target", floor=3)
+    b = F.need(K + "yens_algorithm::run")
+    tm = Terms(b)
+    runs = [c for c in b.calls() if c.callee == astar.A + "search_algorithm::SearchAlgorithm::run_vertex_oriented"]
+    spur = [c for c in runs if innermost_loop(b, c.bb) is not None]
+    if len(spur) != 1:
+        raise AnchorMissing("spur search in yens_algorithm::run")
+    _spur_instance(ctx, F, b, tm, spur[0])
+
+
+def R3_yens(ctx):
+    """C13.R3 Yen's structure"""
+    F = ctx.F
+    ctx.rule("C13.R3", "Yen's: first accepted = underlying first route; spur instance = caller's fields with EdgeCutFrontierModel(si.frontier_model, cut_edges); cut edge = accepted_path[spur_idx+1]; loop-free candidates; dissimilar to every accepted; one acceptance per outer turn; spur failures not propagated; progress; spur range guarded", floor=10)
+    b = F.need(K + "yens_algorithm::run")
+    tm = Terms(b)
+    runs = [c for c in b.calls() if c.callee == astar.A + "search_algorithm::SearchAlgorithm::run_vertex_oriented"]
+    first = [c for c in runs if innermost_loop(b, c.bb) is None]
+    spur = [c for c in runs if innermost_loop(b, c.bb) is not None]
+    ctx.check(len(first) == 1 and len(spur) == 1, "searches", "expected one initial and one spur search (found %d/%d)" % (len(first), len(spur)), b.where())
+    if len(first) != 1 or len(spur) != 1:
+        return
+    first, spur = first[0], spur[0]
+    a = [nosite(deep_strip(tm.operand(x, first.bb))) for x in first.args]
+    ctx.check(a[1] == ("field", ("arg", 1), "source") and a[2] == ("agg", "std::option::Option", "Some", (("0", ("field", ("arg", 1), "target")),)) and a[5] == ("arg", 4), "first-search", "the initial search is not source -> target on the caller's instance", first.where())
+    _spur_instance(ctx, F, b, tm, spur)
     # cut edge index
     # (a loop that inserts under a guard, or cut_edges.extend(accepted.iter().filter(..).filter_map(..).map(..)))
     cuts = [c for c in b.calls() if c.callee and c.callee.startswith("std::collections::HashSet::<T, S, A>::insert")]
